@@ -1510,9 +1510,29 @@ fn conc_seq_op(r: &mut Real, m: &mut Model, rep: &mut Report, stream: &str, t: u
 struct ConcOut {
     sched: Vec<usize>,
     model_line: String,
-    /// oracle failures (class, what)
-    failures: Vec<(String, String)>,
+    /// oracle failures (class, what, the damaged chunks behind the failure as hex of their content:
+    /// listed by an existing artifact and missing, or with `_refs` below the number of listings; empty = the
+    /// failure could not be traced to a chunk record)
+    failures: Vec<(String, String, BTreeSet<String>)>,
+    /// the granted `TensorStore` calls of the threads (thread, label), in order
+    trace: Vec<(usize, String)>,
     agreed: bool,
+}
+
+const DOUBLE_DECREMENT: &str = "tensor_blob.delete/double_decrement";
+
+/// Chunks (hex of content) whose refcount was written back (`p:`) by at least two DIFFERENT deleter threads of the
+/// SAME artifact in this trace: both read the metadata record before either removed it and both decremented.
+/// Computed from the granted calls only, so that a failure in a run where the second deleter got NotFound, or on a
+/// chunk the two deleters did not both decrement, is never filed under the double-decrement class.
+fn double_decremented(case: &ConcCase, trace: &[(usize, String)]) -> BTreeMap<String, u32> {
+    let mut by: BTreeMap<(u32, String), BTreeSet<usize>> = BTreeMap::new();
+    for (th, l) in trace {
+        if let (Some(TSpec::Del(a)), Some(x)) = (case.threads.get(*th), l.strip_prefix("p:")) {
+            by.entry((*a, x.to_string())).or_default().insert(*th);
+        }
+    }
+    by.into_iter().filter(|(_, ths)| ths.len() >= 2).map(|((a, x), _)| (x, a)).collect()
 }
 
 /// Run one concurrent case: sequential prefix, real threads under the scheduler (the yield trace is the
@@ -1681,7 +1701,19 @@ fn run_conc(m: &mut Model, rep: &mut Report, stream: &str, case: &ConcCase, rng:
         rep.hit(&format!("conc.call.{}.{}", match &case.threads[*th] { TSpec::Put(_) => "writer", TSpec::Del(_) => "deleter", TSpec::Touch(_) => "updater", TSpec::Gc => "gc", TSpec::FullGc => "full_gc" }, l.split(':').next().unwrap_or("?")));
     }
     // ---- oracles: the property on the real outputs
-    let mut failures: Vec<(String, String)> = Vec::new();
+    let mut failures: Vec<(String, String, BTreeSet<String>)> = Vec::new();
+    // chunks listed by an existing artifact that are missing or hold fewer references than listings
+    let damaged = |r: &Real| -> BTreeSet<String> {
+        occurrences(&r.ts)
+            .iter()
+            .filter(|(k, o)| r.ts.get(k).ok().and_then(|t| t_int(&t, "_refs")).unwrap_or(0) < **o)
+            .map(|(k, _)| r.known.get(k).map(|d| hex(d)).unwrap_or_else(|| format!("?{k}")))
+            .collect()
+    };
+    // ... and the missing ones among them (what makes a survivor unreadable)
+    let missing = |r: &Real| -> BTreeSet<String> {
+        occurrences(&r.ts).keys().filter(|k| !r.ts.exists(k)).map(|k| r.known.get(k).map(|d| hex(d)).unwrap_or_else(|| format!("?{k}"))).collect()
+    };
     let targets: BTreeSet<usize> = case.threads.iter().filter_map(|t| if let TSpec::Del(a) = t { Some(*a as usize) } else { None }).collect();
     let has_full = case.threads.iter().any(|t| matches!(t, TSpec::FullGc));
     let has_gc = case.threads.iter().any(|t| matches!(t, TSpec::Gc));
@@ -1722,7 +1754,7 @@ fn run_conc(m: &mut Model, rep: &mut Report, stream: &str, case: &ConcCase, rng:
         }
     }
     if !survivors_ok(&r) {
-        failures.push((site.to_string(), "an artifact that exists and that no thread deleted cannot be read back after the interleaving".to_string()));
+        failures.push((site.to_string(), "an artifact that exists and that no thread deleted cannot be read back after the interleaving".to_string(), missing(&r)));
     }
     let low_refs = |r: &Real| -> bool {
         occurrences(&r.ts).iter().any(|(k, o)| r.ts.get(k).ok().and_then(|t| t_int(&t, "_refs")).unwrap_or(0) < *o)
@@ -1730,7 +1762,7 @@ fn run_conc(m: &mut Model, rep: &mut Report, stream: &str, case: &ConcCase, rng:
     if low_refs(&r) && resurrected.is_empty() {
         // without a writer and with distinct deleters a refcount can only end up too HIGH (a lost decrement)
         let class = if proved_safe { "tensor_blob.conc/refs_below_occurrences_without_writer" } else { "tensor_blob.refs/lost_update" };
-        failures.push((class.to_string(), "after the interleaving a chunk's refcount is below the number of times existing artifacts list it".to_string()));
+        failures.push((class.to_string(), "after the interleaving a chunk's refcount is below the number of times existing artifacts list it".to_string(), damaged(&r)));
     }
     // ---- sequential suffix, then every surviving artifact again
     let mut t2 = T_CONC;
@@ -1746,7 +1778,7 @@ fn run_conc(m: &mut Model, rep: &mut Report, stream: &str, case: &ConcCase, rng:
         } else {
             "tensor_blob.gc/live_chunk_collected"
         };
-        failures.push((post_site.to_string(), "after the interleaving and a later sequential collection an artifact that was never deleted cannot be read back".to_string()));
+        failures.push((post_site.to_string(), "after the interleaving and a later sequential collection an artifact that was never deleted cannot be read back".to_string(), missing(&r)));
     }
     if !resurrected.is_empty() {
         let unreadable: Vec<usize> = resurrected.iter().copied().filter(|ix| bo(r.blob.get(&r.ids[*ix])).is_err()).collect();
@@ -1758,29 +1790,41 @@ fn run_conc(m: &mut Model, rep: &mut Report, stream: &str, case: &ConcCase, rng:
                 "input": conc_json(case, &sched), "lean": "concurrent_update_resurrects_deleted_witness"}));
         }
     }
-    ConcOut { sched, model_line, failures, agreed }
+    ConcOut { sched, model_line, failures, trace, agreed }
 }
 
 fn report_conc(rep: &mut Report, stream: &str, name: Option<&str>, case: &ConcCase, out: &ConcOut) {
-    let dup_targets = {
-        let v: Vec<u32> = case.threads.iter().filter_map(|t| if let TSpec::Del(a) = t { Some(*a) } else { None }).collect();
-        v.iter().collect::<BTreeSet<_>>().len() < v.len()
-    };
-    for (class, what) in &out.failures {
-        if dup_targets {
-            // two deleters of the same artifact: candidate finding, not yet listed — recorded, not judged
-            rep.hit("conc.candidate.double_decrement");
-            if rep.distribution.get("conc.candidate.double_decrement").copied().unwrap_or(0) <= 3 {
-                rep.observe(json!({"candidate_class": "tensor_blob.delete/double_decrement", "oracle_class": class, "what": what,
-                    "input": conc_json(case, &out.sched), "lean": "concurrent_double_delete_witness"}));
-            }
-        } else {
-            vio(rep, class, what, conc_json(case, &out.sched));
+    // Known finding tensor_blob.delete/double_decrement: a failure is filed under it only for the damaged chunks
+    // that two deleter threads of the same artifact BOTH decremented in this very trace; whatever else is damaged
+    // (or a failure that cannot be traced to a chunk record) keeps the class of the oracle that found it.
+    let dd = double_decremented(case, &out.trace);
+    let mut classes: Vec<String> = Vec::new();
+    for (class, what, dmg) in &out.failures {
+        let by_dd: Vec<&String> = dmg.iter().filter(|x| dd.contains_key(*x)).collect();
+        let rest: Vec<&String> = dmg.iter().filter(|x| !dd.contains_key(*x)).collect();
+        if !by_dd.is_empty() {
+            let arts: BTreeSet<u32> = by_dd.iter().map(|x| dd[*x]).collect();
+            let w = format!(
+                "{what} (oracle class {class}): chunk(s) {} decremented by two delete() calls of the same artifact a{} that both read its metadata record before either removed it (Lean: concurrent_double_delete_witness)",
+                by_dd.iter().map(|x| x.as_str()).collect::<Vec<_>>().join(","),
+                arts.iter().map(|a| a.to_string()).collect::<Vec<_>>().join(",a")
+            );
+            vio(rep, DOUBLE_DECREMENT, &w, conc_json(case, &out.sched));
+            rep.hit("conc.double_decrement.reproduced");
+            classes.push(DOUBLE_DECREMENT.to_string());
         }
+        if !rest.is_empty() || dmg.is_empty() {
+            vio(rep, class, what, conc_json(case, &out.sched));
+            classes.push(class.clone());
+        }
+    }
+    if !dd.is_empty() {
+        rep.hit(if out.failures.is_empty() { "conc.double_decrement.in_trace.harmless" } else { "conc.double_decrement.in_trace.with_failure" });
     }
     rep.case(stream, Some(&out.model_line));
     if let Some(n) = name {
-        let verdict = if !out.agreed { "disagree".to_string() } else if out.failures.is_empty() { "pass".to_string() } else { out.failures.iter().map(|f| f.0.clone()).collect::<Vec<_>>().join("+") };
+        classes.dedup();
+        let verdict = if !out.agreed { "disagree".to_string() } else if classes.is_empty() { "pass".to_string() } else { classes.join("+") };
         rep.hit(&format!("conc.directed.{n}.{verdict}"));
     }
 }
@@ -1795,8 +1839,11 @@ fn conc_directed(m: &mut Model, rep: &mut Report, rng: &mut Rng) {
         ("full-gc-vs-writer", ConcCase { chunk: 2, pre: vec![], threads: vec![TSpec::Put(vec![1]), TSpec::FullGc], script: Some(vec![0, 0, 1, 1, 1, 1, 0]), post: vec![] }),
         // gc_cycle reads refs == 0 on an old orphan, the writer re-references it, gc deletes it
         ("gc-vs-writer-on-orphan", ConcCase { chunk: 1, pre: vec![Op::Put(vec![1]), Op::Delete(0)], threads: vec![TSpec::Put(vec![1]), TSpec::Gc], script: Some(vec![1, 1, 0, 0, 0, 1, 0]), post: vec![] }),
-        // two deleters of the same artifact both decrement: the chunk it shares with a1 drops to 0 references
+        // known finding tensor_blob.delete/double_decrement (Props: concurrent_double_delete_witness): two deleters of
+        // the same artifact both decrement; the chunk it shares with a1 drops to 0 references and gc removes it
         ("double-delete-then-gc", ConcCase { chunk: 1, pre: vec![Op::Put(vec![1]), Op::Put(vec![1])], threads: vec![TSpec::Del(0), TSpec::Del(0)], script: Some(vec![0, 1, 0, 0, 1, 1, 0, 1]), post: vec![gc_all.clone()] }),
+        // control: the same two deleters one after the other (the second gets NotFound) — nothing is decremented twice
+        ("double-delete-serial", ConcCase { chunk: 1, pre: vec![Op::Put(vec![1]), Op::Put(vec![1])], threads: vec![TSpec::Del(0), TSpec::Del(0)], script: Some(vec![0, 0, 0, 0, 1]), post: vec![gc_all.clone()] }),
         // outside the quantifier: set_meta overlapping the delete of the same artifact resurrects it (observation only)
         ("update-resurrects-deleted", ConcCase { chunk: 1, pre: vec![Op::Put(vec![1])], threads: vec![TSpec::Touch(0), TSpec::Del(0)], script: Some(vec![0, 1, 1, 1, 1, 0]), post: vec![gc_all.clone()] }),
         // safe: deleters of different artifacts with both collectors (Props: concurrent_deleters_collectors_safe)
@@ -1920,7 +1967,7 @@ fn main() {
         "conc.call.updater.gm", "conc.call.updater.pm",
         "conc.call.gc.sc", "conc.call.gc.g", "conc.call.gc.d",
         "conc.call.full_gc.sm", "conc.call.full_gc.gm", "conc.call.full_gc.sc", "conc.call.full_gc.g", "conc.call.full_gc.d",
-        "conc.candidate.double_decrement",
+        "conc.double_decrement.reproduced",
     ]
     .iter()
     .map(|x| x.to_string())
@@ -1930,6 +1977,8 @@ fn main() {
     let scale: u64 = if args.thorough { 12 } else { 1 };
 
     directed(&mut m, &mut rep);
+    // the witness interleavings of the known findings (and the safe mixes) run before every random stream
+    conc_directed(&mut m, &mut rep, &mut root.fork("conc-directed"));
     chunker_stream(&mut m, &mut rep, &mut root.fork("chunker"), 1500 * scale);
     run_stream(&mut m, &mut rep, &mut root.fork("seq"), "seq", 1200 * scale, false, false, false);
     run_stream(&mut m, &mut rep, &mut root.fork("writers"), "writers", 600 * scale, true, false, false);
@@ -1937,7 +1986,6 @@ fn main() {
     run_stream(&mut m, &mut rep, &mut root.fork("api"), "api", 350 * scale, false, false, true);
     run_stream(&mut m, &mut rep, &mut root.fork("api-damage"), "api-damage", 150 * scale, false, true, true);
     thread_stream(&mut rep, &mut root.fork("threads"), 300 * scale);
-    conc_directed(&mut m, &mut rep, &mut root.fork("conc-directed"));
     conc_stream(&mut m, &mut rep, &mut root.fork("conc"), 250 * scale);
 
     rep.note("SHA-256 is opaque: the model is keyed by the chunk bytes themselves; the harness checks every new chunk record is keyed by compute_hash(data)");
